@@ -187,8 +187,11 @@ def run_twin(tdgl, args, tmp):
                              screening_tolerance=args.get("screening_tol", 1e-6), max_iterations_per_step=2000,
                              field_units=fu, current_units=cu)
     cur = nums["I"] * args.get("Ifactor", 1.0)
+    drive = dict(applied_vector_potential=nums["B"] * args.get("Bfactor", 1.0), terminal_currents={"source": cur, "drain": -cur})
+    if args.get("epsilon"):
+        drive["disorder_epsilon"] = make_epsilon(10.0 ** (-6 - u[0]), args["epsilon"])
     try:
-        sol = tdgl.solve(dev, opt, applied_vector_potential=nums["B"] * args.get("Bfactor", 1.0), terminal_currents={"source": cur, "drain": -cur})
+        sol = tdgl.solve(dev, opt, **drive)
     except Exception as e:        # recorded: whether a run raises must not depend on the unit system
         return {"u": u, "error": f"{type(e).__name__}: {e}"}
     frames = []
@@ -199,6 +202,8 @@ def run_twin(tdgl, args, tmp):
             fr = {"step": int(g.attrs["step"]), "abs_psi": np.abs(np.array(g["psi"])).tolist(),
                   "Js": np.array(g["supercurrent"]).tolist(), "Jn": np.array(g["normal_current"]).tolist(),
                   "dmu": (mu - mu[0]).tolist()}
+            if "epsilon" in g:
+                fr["epsilon"] = np.array(g["epsilon"]).tolist()
             if "running_state" in g and "dt" in g["running_state"]:
                 fr["nrec"] = int(np.count_nonzero(np.atleast_1d(np.array(g["running_state"]["dt"])) > 0))
             frames.append(fr)
@@ -231,7 +236,52 @@ def run_twin(tdgl, args, tmp):
             "Bvec_total[T] via units=": np.asarray(sol.field_at_position(pos, vector=True, units="T", with_units=False)).reshape(-1).tolist(),
             "A_total[T*m] via units=": np.asarray(sol.vector_potential_at_position(pos, units="T * m", with_units=False)).reshape(-1).tolist(),
         }
-    return {"u": u, "frames": frames, "K_A_per_m": phys, "fields": fields, "nsites": len(dev.mesh.sites)}
+    res = {"u": u, "frames": frames, "K_A_per_m": phys, "fields": fields, "nsites": len(dev.mesh.sites)}
+    if args.get("reload"):
+        # the solution written by the solver, read back: same physical outputs; and it must be usable as a seed
+        last = str(frames[-1]["step"])
+        try:
+            re = tdgl.Solution.from_hdf5(sol.path)
+            rd = re.device
+            res["reloaded"] = {
+                "K": np.asarray(re.current_density.to("A / m").magnitude).reshape(-1).tolist(),
+                "fields": {
+                    "Bz_total[T]": np.asarray(re.field_at_position(pos, vector=False).to("T").magnitude).reshape(-1).tolist(),
+                    "A_total[T*m]": np.asarray(re.vector_potential_at_position(pos).to("T * m").magnitude).reshape(-1).tolist()},
+                "device": [float(rd.coherence_length.to("m").magnitude), float(rd.london_lambda.to("m").magnitude),
+                           float(rd.K0.to("A / m").magnitude), float(rd.Bc2.to("T").magnitude)],
+                "step": last}
+            res["device"] = [float(dev.coherence_length.to("m").magnitude), float(dev.london_lambda.to("m").magnitude),
+                             float(dev.K0.to("A / m").magnitude), float(dev.Bc2.to("T").magnitude)]
+        except Exception as e:
+            res["reloaded"] = {"error": f"{type(e).__name__}: {e}"[:300]}
+            re = None
+        try:
+            opt2 = tdgl.SolverOptions(solve_time=4 * args["dt"] - args["dt"] / 2, dt_init=args["dt"], adaptive=False, save_every=2, progress_interval=10 ** 9,
+                                      pause_on_interrupt=False, output_file=os.path.join(work, "cont.h5"), field_units=fu, current_units=cu)
+            sol2 = tdgl.solve(dev, opt2, seed_solution=re, **drive)
+            res["continuation"] = {"abs_psi": np.abs(sol2.tdgl_data.psi).tolist(), "K": np.asarray(sol2.current_density.to("A / m").magnitude).reshape(-1).tolist()}
+        except Exception as e:
+            res["continuation"] = {"error": f"{type(e).__name__}: {e}"[:300]}
+    return res
+
+
+def make_epsilon(s_len, form):
+    """The same PHYSICAL disorder landscape (a dip of width 0.7 um at (0.8 um, -0.3 um) that grows in time) as a function of the
+    position in length_units (s_len = one micrometre in length_units); point-by-point (r is one position, keyword-only t) or
+    vectorized (r is an (n, 2) array, vectorized=True)."""
+    import numpy as np
+
+    if form == "pointwise":
+        def epsilon(r, *, t):
+            x, y = r[0] / s_len, r[1] / s_len
+            return 1.0 - 0.6 * np.exp(-((x - 0.8) ** 2 + (y + 0.3) ** 2) / (2 * 0.7 ** 2)) * min(1.0, t / 0.2)
+        return epsilon
+
+    def epsilon(r, *, t, vectorized=True):
+        x, y = r[:, 0] / s_len, r[:, 1] / s_len
+        return 1.0 - 0.6 * np.exp(-((x - 0.8) ** 2 + (y + 0.3) ** 2) / (2 * 0.7 ** 2)) * min(1.0, t / 0.2)
+    return epsilon
 
 
 # ------------------------------------------------------------------------------------ history on a shared options object
